@@ -49,6 +49,16 @@ func (els *EncryptedLeaseSet) Verify() error {
 // present, otherwise constructs a key from sigType + blindedPublicKey.
 func (els *EncryptedLeaseSet) signingPublicKeyForVerification() (types.SigningPublicKey, error) {
 	if els.HasOfflineKeys() && els.offlineSignature != nil {
+		// The transient key is only authoritative if the blinded signing key
+		// has signed it (the offline signature).
+		authorised, err := els.offlineSignature.VerifySignature(els.blindedPublicKey)
+		if err != nil {
+			return nil, oops.Errorf("failed to verify offline signature: %w", err)
+		}
+		if !authorised {
+			return nil, oops.Errorf("offline signature is not valid under the blinded signing key")
+		}
+
 		transientKeyBytes := els.offlineSignature.TransientPublicKey()
 		transientSigType := els.offlineSignature.TransientSigType()
 		spk, err := key_certificate.ConstructSigningPublicKeyByType(
